@@ -27,6 +27,8 @@ def dt_menu(dt):
     return [
         ("key-%s" % dt, lambda p: M.Key("k%d" % p, dt)),
         ("key-%s-default" % dt, lambda p: M.Key("k%d" % p, dt, default=d1)),
+        # a default that is present but empty / blank: still a default ('' converted), not "no default"
+        ("key-%s-empty-default" % dt, lambda p: M.Key("k%d" % p, dt, default="")),
         ("key-%s-hyphen-attr" % dt, lambda p: M.Key("k-%d" % p, dt, default=d2)),
         ("key-%s-attribute" % dt, lambda p: M.Key("k%d" % p, dt, attribute="Attr%d" % p)),
         ("multikey-%s" % dt, lambda p: M.MultiKey("m%d" % p, dt)),
